@@ -26,6 +26,7 @@ sys.path.insert(0, HERE)
 
 EDGE_BAND = 1e-6          # generator rejects values this close to a bin edge
 TYPES = ["A", "B", "C"]
+TB_PATTERNS = ["AAA", "ABB", "ABC", "AAB", "ABA"]
 
 
 # ----------------------------------------------------------------------------
@@ -439,6 +440,19 @@ def frame_histograms(view, case, box, pos):
 # expected output files (documented formulas)
 # ----------------------------------------------------------------------------
 
+def tb_pattern_of(it):
+    t1, t2, t3 = it["type1"], it["type2"], it["type3"]
+    if t1 == t2 == t3:
+        return "AAA"
+    if t2 == t3:
+        return "ABB"
+    if t1 == t2:
+        return "AAB"
+    if t1 == t3:
+        return "ABA"
+    return "ABC"
+
+
 def norm_of(view, it):
     s1, s2 = select(view, it["type1"]), select(view, it["type2"])
     if it["type1"] == it["type2"]:
@@ -552,15 +566,20 @@ class Gen:
             k = max(1, min(k, int(math.floor((maxmax - mn) / step + 1e-9))))
         return mn, round(mn + k * step, 6), k
 
-    def make_case(self, tier):
+    def make_case(self, tier, tb_pattern=None):
+        """tb_pattern: force an angular three-body interaction with this type
+        pattern (AAA ABB ABC AAB ABA) in a system with 2..3 bead types"""
         r = self.r
         case = {}
         case["fmt"] = "dump" if r.rand() < 0.6 else "gro"
         case["mapped"] = bool(r.rand() < 0.35)
         ntypes = int(r.randint(1, 4))
-        types = TYPES[:ntypes]
         target_beads = int(self.choice([2, 3, 5, 8, 12, 20, 30, 40, 60, 80,
                                         100, 120]))
+        if tb_pattern:
+            ntypes = max(3 if tb_pattern == "ABC" else 2, int(r.randint(2, 4)))
+            target_beads = int(self.choice([12, 20, 30, 40, 60, 80, 100, 120]))
+        types = TYPES[:ntypes]
         nmt = int(r.randint(1, 4))
         moltypes = []
         left = target_beads
@@ -708,17 +727,20 @@ class Gen:
                               "name": g["name"], "min": dec(lo, 6),
                               "max": dec(round(lo + k * st, 6), 6),
                               "step": dec(st, 6), "group": "none"})
-        # angular three-body distribution
-        if r.rand() < 0.25 and view.n >= 3:
-            ch = r.rand()
-            t1 = self.choice(present)
-            if ch < 0.5 or len(present) == 1:
-                t2 = t3 = t1
-            elif ch < 0.8 or len(present) == 2:
-                t2 = t3 = self.choice([t for t in present if t != t1])
-            else:
-                o = [t for t in present if t != t1]
-                t2, t3 = o[0], o[1]
+        # angular three-body distribution: centre of type1, one neighbour of
+        # type2 and one of type3; all five type patterns
+        if tb_pattern and len(present) < (3 if tb_pattern == "ABC" else 2):
+            return None
+        if (tb_pattern or r.rand() < 0.25) and view.n >= 3:
+            pats = ["AAA"] + (["ABB", "AAB", "ABA"] if len(present) >= 2 else []) \
+                + (["ABC"] if len(present) >= 3 else [])
+            pat = tb_pattern or self.choice(pats)
+            perm = list(present)
+            r.shuffle(perm)
+            a_, b_, c_ = (perm + perm + perm)[:3]
+            t1, t2, t3 = {"AAA": (a_, a_, a_), "ABB": (a_, b_, b_),
+                          "ABC": (a_, b_, c_), "AAB": (a_, a_, b_),
+                          "ABA": (a_, b_, a_)}[pat]
             st = self.choice([0.05, 0.1, 0.2, 0.25])
             k = int(math.ceil(3.1416 / st)) if r.rand() < 0.8 else \
                 int(r.randint(2, 20))
@@ -972,6 +994,14 @@ def judge_case(case, files, workdir, J):
                 fam = "nonbonded-same" if it["type1"] == it["type2"] \
                     else "nonbonded-cross"
             key = ("blocks/" if isblock else "dist/") + fam
+            if it["class"] == "threebody":
+                # type pattern of (centre, neighbour, neighbour) in family
+                # name and key
+                fam = "threebody/" + tb_pattern_of(it)
+                key = "%s/%s" % (fam, "block-dist-mismatch" if isblock
+                                 else "dist-mismatch")
+                if E["avg"][name].sum() > 0:
+                    info.setdefault("tb_nonempty", set()).add(tb_pattern_of(it))
             if it["class"] == "bonded" and case["nt"] > 1 and \
                     not case["mapped"]:
                 # own structural key: <bonded> of an XML topology + --nt > 1
@@ -1179,8 +1209,13 @@ def worker(args):
         cseed = (seed * 1000003 + shard * 7919 + ci * 104729 + 17) % (2 ** 32)
         g = Gen(cseed)
         case = None
-        for attempt in range(20):
-            case = g.make_case(tier)
+        # every fourth case (counted over all shards) carries an angular
+        # three-body interaction, the five type patterns in turn
+        gidx = shard * n + ci
+        forced = TB_PATTERNS[(gidx // 4) % len(TB_PATTERNS)] \
+            if gidx % 4 == 0 else None
+        for attempt in range(40 if forced else 20):
+            case = g.make_case(tier, forced)
             if case is not None:
                 break
             cnt("generator_retries")
@@ -1230,6 +1265,12 @@ def worker(args):
             cnt("cases_frame_selection")
         if info["volume_varies"]:
             cnt("cases_volume_varies")
+        for it_ in case["interactions"]:
+            if it_["class"] == "threebody":
+                pt_ = tb_pattern_of(it_)
+                cnt("cases_threebody_pattern_" + pt_)
+                if pt_ in info.get("tb_nonempty", ()):
+                    cnt("cases_threebody_pattern_%s_with_triples" % pt_)
         if case["nt"] > 1:
             cnt("cases_nt_gt_1")
             if case["do_imc"]:
